@@ -92,11 +92,18 @@ func (g *GettyRemoting) sendAsync(session getty.Session, msg message.RpcMessage,
 		log.Warn("sendAsyncRequestWithResponse nothing, caused by null channel.")
 		return nil, fmt.Errorf("session is closed")
 	}
-	resp := message.NewMessageFuture(msg)
-	g.futures.Store(msg.ID, resp)
+	var resp *message.MessageFuture
+	if callback != nil {
+		// only a message whose sender waits for an answer gets an entry: responses and heartbeats carry
+		// ids of other id spaces and must never replace (or leak next to) a pending request's future
+		resp = message.NewMessageFuture(msg)
+		g.futures.Store(msg.ID, resp)
+	}
 	_, _, err = session.WritePkg(msg, time.Duration(0))
 	if err != nil {
-		g.futures.Delete(msg.ID)
+		if callback != nil {
+			g.futures.Delete(msg.ID)
+		}
 		log.Errorf("send message: %#v, session: %s", msg, session.Stat())
 		return nil, err
 	}
